@@ -29,7 +29,7 @@ PROP = "C23"
 MIN_OBLIGATIONS = 12
 GM = "pandapower.toolbox.grid_modification"
 NOT_DECIDED = ["not decided: the other transformations of the statement (continuous re-indexing: C22 reference updates; ext_grid -> gen, ward / "
-               "xward replacement, merge_nets, select_subnet, drop_inactive_elements, fuse_buses, merge_parallel_line), result / profile / group "
+               "xward replacement, merge_nets, select_subnet, fuse_buses, merge_parallel_line; drop_inactive_elements: bounded native stand-in only), result / profile / group "
                "adaptation helpers, the per-list sn_mva alignment when lines are skipped"]
 
 
@@ -186,6 +186,15 @@ def run(vc):
             p.prove("subnet:f_hz-kept", isinstance(f2, SV) and z3.eq(f2.z, net.fields.raw("f_hz").z), meta=dict(part="subnet"),
                     note="line susceptances depend on the network frequency: the selected subnet must carry the frequency of its source")
     vc.explore("select_subnet", h_sub, max_paths=200)
+
+    if not hasattr(vc, "native_standins"):
+        vc.native_standins = []
+    vc.native_standins.append(dict(
+        name="dropping inactive elements on a fixed network",
+        bound="one 110/20 kV feeder with an open-ended cable (dead-end bus as its from or as its to bus), an in-service stub line at an "
+              "out-of-service bus, out-of-service load / sgen; drop_inactive_elements and drop_out_of_service_elements: bus voltages and slack "
+              "reactive power before / after",
+        script="from replaylib.transformations import main_inactive\nmain_inactive()\n"))
 
 
 def classify(ob, model):
